@@ -1,9 +1,14 @@
 #!/bin/bash
-# usage: mut_test.sh <patch.diff> <vk args...>   -- apply a seeded change to /repo, run vk, undo
+# usage: mut_test.sh <patch.diff> <vk args...>
+# Development helper: applies a seeded change to a scratch COPY of /repo and runs vk against that copy (VERIF_REPO),
+# so that /repo itself is never touched and several mutants can be tried in parallel.
+# (Final confirmation of a kept seeded change is done the documented way: git -C /repo apply; run; git checkout.)
 set -u
 P=$1; shift
-git -C /repo apply "$P" || { echo "patch does not apply"; exit 3; }
-cd /verif && ./vk "$@"; rc=$?
-git -C /repo checkout -- . 
+D=/var/tmp/mutrepo.$$
+rsync -a --exclude /target /repo/ $D/
+( cd $D && git apply "$P" ) || { echo "patch does not apply"; rm -rf $D; exit 3; }
+cd /verif && VERIF_REPO=$D ./vk "$@"; rc=$?
+rm -rf $D
 echo "mut_test rc=$rc"
 exit $rc
